@@ -258,6 +258,12 @@ def paths(fn, max_paths=4096, loops="error", stores=False):
         if isinstance(s, (ast.Continue, ast.Break)):
             out.append(Path(conds, "continue" if isinstance(s, ast.Continue) else "break", None, env, effects, s))
             return
+        if isinstance(s, ast.Delete):
+            env = dict(env)
+            for t in s.targets:
+                if isinstance(t, ast.Name):
+                    env.pop(t.id, None)
+            return nxt(conds, env, effects + ([s] if stores else []))
         if isinstance(s, (ast.Pass, ast.Global, ast.Nonlocal, ast.Import, ast.ImportFrom)):
             return nxt(conds, env, effects)
         if isinstance(s, ast.Assert):
